@@ -592,7 +592,7 @@ class ShellsGenerator(object):
             match_atoms_dict[atom2].add(atom1)
         if not self.include_disconnected:
             match_atoms_dict = {
-                k: v.intersection(self.bound_atoms_dict[k])
+                k: v.intersection(self.bound_atoms_dict.get(k, set()))
                 for k, v in match_atoms_dict.items()
             }
         return match_atoms_dict
